@@ -4,11 +4,41 @@ import (
 	"fmt"
 	"math/rand"
 	"os"
+	"strings"
 	"testing"
 )
 
 // C15 — Merge does not change the logical contents (differential twin:
 // database A runs the history, database B the same history without Merge).
+
+// emptiedStructure reports whether op addresses a set key or a sorted-set bucket that holds no member according
+// to the observation ob. Used for the recorded finding c15-merge-forgets-emptied-set-keys: after Merge and a
+// reopen such a structure no longer exists, so a call on it returns "not found" where it is a no-op without Merge.
+func emptiedStructure(ob *Observation, op Op) bool {
+	if ob == nil {
+		return false
+	}
+	m := ob.Map()
+	none := func(label string) bool {
+		v, ok := m[label]
+		return ok && v == "NONE"
+	}
+	switch structOf(op.K) {
+	case "z":
+		return none(fmt.Sprintf("z %q zcard", string(op.B)))
+	case "s":
+		ok := none(fmt.Sprintf("s %q %q scard", string(op.B), string(op.Key)))
+		if op.Key2 != "" || strings.HasPrefix(op.K, "smove") || strings.HasPrefix(op.K, "sdiff") || strings.HasPrefix(op.K, "sunion") {
+			b2 := string(op.B)
+			if strings.HasSuffix(op.K, "2") {
+				b2 = string(op.B2)
+			}
+			ok = ok || none(fmt.Sprintf("s %q %q scard", b2, string(op.Key2)))
+		}
+		return ok
+	}
+	return false
+}
 
 func runC15(c Case, st *Stats) error {
 	rand.Seed(c.Seed)
@@ -62,8 +92,10 @@ func runC15(c Case, st *Stats) error {
 	oo := obsForCase(c, st)
 	merges, effective, twice, writeAfter, reopenAfterWrite := 0, 0, 0, false, false
 	lastWasMerge := false
+	var lastTwinObs *Observation
 	compare := func(i int, what string) error {
 		oa, ob := Observe(a, u, oo), Observe(b, u, oo)
+		lastTwinObs = ob
 		if oa.Panic != "" || ob.Panic != "" {
 			return fmt.Errorf("step %d (%s): observation panicked: %q %q", i, what, oa.Panic, ob.Panic)
 		}
@@ -111,6 +143,13 @@ func runC15(c Case, st *Stats) error {
 					return nil
 				}
 				if ta.Res[j].String() != tb.Res[j].String() {
+					if merges > 0 && ta.Res[j].Err && !tb.Res[j].Err && emptiedStructure(lastTwinObs, rs.Ops[j]) && Known("c15-merge-forgets-emptied-set-keys") {
+						// known finding: the emptied structure no longer exists after Merge and a reopen; the case ends
+						// here without a verdict (the two databases may legitimately diverge from now on)
+						st.Deviate("c15-merge-forgets-emptied-set-keys")
+						st.Eval(c.JSON(), false, "stopped-at-call-on-emptied-structure-after-merge")
+						return nil
+					}
 					return fmt.Errorf("step %d: call %s returned %s after Merge but %s in the twin", i, rs.Ops[j], ta.Res[j], tb.Res[j])
 				}
 			}
